@@ -543,6 +543,63 @@ func (b *e2eBase) staleScenario(tally *engine.Tally) {
 	}
 }
 
+// multiScenario: three signings are requested and all three receive their last share in the same block, in every one
+// of the 3! orders of completion; at the end of that block each of them must carry a verifying group signature.
+func (b *e2eBase) multiScenario(tally *engine.Tally) {
+	w, g := b.w, b.g
+	tk := w.App.TSSKeeper
+	perms := [][3]int{{0, 1, 2}, {0, 2, 1}, {1, 0, 2}, {1, 2, 0}, {2, 0, 1}, {2, 1, 0}}
+	for _, perm := range perms {
+		ctx := engine.Fork(b.ctx)
+		cfg := map[string]any{"part": "e2e-multi", "n": b.nt.N, "t": b.nt.T, "completion_order": perm}
+		path := []string{fmt.Sprintf("three-signings-complete-in-one-block n=%d t=%d order=%v", b.nt.N, b.nt.T, perm)}
+		for mi := range g.Accounts {
+			tssh.Must(w.Tx(ctx, 0, tssh.SubmitDEsMsg(g.Accounts[mi].Address.String(), 0, 3)), "DEs")
+		}
+		var sids []tss.SigningID
+		for k := 0; k < 3; k++ {
+			req, _ := bandtsstypes.NewMsgRequestSignature(tsstypes.NewTextSignatureOrder([]byte(fmt.Sprintf("multi-%d", k))), sdk.NewCoins(sdk.NewInt64Coin("uband", 1_000_000)), bandtesting.Alice.Address.String())
+			tssh.Must(w.Tx(ctx, 0, req), "request")
+			sids = append(sids, tss.SigningID(tk.GetSigningCount(ctx)))
+		}
+		for _, k := range perm {
+			sid := sids[k]
+			signing, _ := tk.GetSigning(ctx, sid)
+			sa, _ := tk.GetSigningAttempt(ctx, sid, signing.CurrentAttempt)
+			for _, am := range sa.AssignedMembers {
+				sig, err := g.PartialSig(signing, sa, am.MemberID)
+				if err != nil {
+					panic(err)
+				}
+				tally.Eval()
+				if res := w.Tx(ctx, 0, tsstypes.NewMsgSubmitSignature(sid, am.MemberID, sig, g.Accounts[int(am.MemberID)-1].Address.String())); !res.OK() {
+					tally.Violate(cfg, path, "C03/correct-share-rejected", fmt.Sprintf("signing %d member %d: %v", sid, am.MemberID, res.Err))
+					return
+				}
+			}
+		}
+		next, br := w.Block(ctx, 1, 3*time.Second)
+		if br.Halt != "" {
+			tally.Violate(cfg, path, "block-halt", br.Halt)
+			return
+		}
+		group, _ := tk.GetGroup(next, g.ID)
+		for _, sid := range sids {
+			signing, _ := tk.GetSigning(next, sid)
+			if signing.Status != tsstypes.SIGNING_STATUS_SUCCESS {
+				tally.Violate(cfg, path, "C03/no-group-signature-after-all-shares", fmt.Sprintf("signing %d (one of three completed in the same block, completion order %v): status %s", sid, perm, signing.Status))
+				return
+			}
+			if ok, err := verifyGroupSig(signing.Signature, group.PubKey, signing.Message); err != nil || !ok {
+				tally.Violate(cfg, path, "C03/published-signature-does-not-verify", fmt.Sprintf("signing %d: ok=%v err=%v", sid, ok, err))
+				return
+			}
+		}
+		tally.Saw("three-signings-completed-in-one-block")
+		tally.Nontrivial(path[0])
+	}
+}
+
 func runE2E(r *engine.Run, deadline time.Time) {
 	maxN := 5
 	if !r.Quick() {
@@ -573,6 +630,9 @@ func runE2E(r *engine.Run, deadline time.Time) {
 	complete := engine.ParallelFor(int64(len(bases)), 0, deadline, func(_ int, idx int64) {
 		b := bases[idx]
 		b.staleScenario(tally)
+		if b.nt.N <= 5 {
+			b.multiScenario(tally)
+		}
 		cs := committees(b.nt.N, b.nt.T)
 		if b.nt.N == 22 {
 			// committees that include the ids above 20 (generic Lagrange path) and one that does not
@@ -625,7 +685,7 @@ func init() {
 			}
 			r.Required = []string{"lagrange-done", "lagrange-reject", "group-signature-verified", "good-share-accepted", "bad-share-rejected:scalar-plus-one",
 				"bad-share-rejected:nonce-point-plus-G", "bad-share-rejected:different-message", "bad-share-rejected:lagrange-of-other-committee",
-				"bad-share-rejected:share-under-other-member-id", "bad-share-rejected:unassigned-nonce", "bad-share-rejected:other-members-key-share", "bad-share-rejected:previous-attempt-share", "shares-in-expiry-block"}
+				"bad-share-rejected:share-under-other-member-id", "bad-share-rejected:unassigned-nonce", "bad-share-rejected:other-members-key-share", "bad-share-rejected:previous-attempt-share", "bad-share-rejected:trailing-byte", "shares-in-expiry-block", "three-signings-completed-in-one-block"}
 			deadline := r.Deadline(4*time.Minute, 40*time.Minute)
 			runLagrange(r, deadline)
 			runE2E(r, deadline)
